@@ -314,7 +314,7 @@ func (d *c09DS) Get(ctx context.Context, k ds.Key) ([]byte, error) {
 }
 
 // c09Validator: namespace "v"; values starting with "bad" are invalid; the new
-// record always wins a selection.
+// record wins a selection unless the stored one is marked "ok-best" and the new one is not.
 type c09Validator struct{}
 
 func (c09Validator) Validate(key string, value []byte) error {
@@ -323,7 +323,15 @@ func (c09Validator) Validate(key string, value []byte) error {
 	}
 	return nil
 }
-func (c09Validator) Select(key string, values [][]byte) (int, error) { return 0, nil }
+func (c09Validator) Select(key string, values [][]byte) (int, error) {
+	// a value marked "ok-best" beats every unmarked one (the first marked value wins); otherwise the new record wins
+	for i, v := range values {
+		if bytes.HasPrefix(v, []byte("ok-best")) {
+			return i, nil
+		}
+	}
+	return 0, nil
+}
 
 // ---------------------------------------------------------------- generators
 
@@ -699,8 +707,12 @@ func c09GenRequest(r *vfRand, sp *c09Spec, typ int32, keyLens []int) *pb.Message
 		switch x := r.Intn(100); {
 		case x < 10:
 			m.Key = nil
-		case x < 70:
+		case x < 40:
 			m.Key = append([]byte("/v/c09-"), c09Bytes(r, 4)...)
+		case x < 70:
+			// the node already holds a record for the key that the validator prefers to an unmarked incoming one
+			m.Key = []byte("/v/c09-stored")
+			sp.stored = &recpb.Record{Key: m.Key, Value: append([]byte("ok-best-"), c09Bytes(r, r.Intn(10))...)}
 		case x < 80:
 			m.Key = append([]byte("/x/c09-"), c09Bytes(r, 4)...)
 		default:
@@ -709,6 +721,8 @@ func c09GenRequest(r *vfRand, sp *c09Spec, typ int32, keyLens []int) *pb.Message
 		val := append([]byte("ok-"), c09Bytes(r, r.Intn(20))...)
 		if r.Chance(20) {
 			val = append([]byte("bad-"), c09Bytes(r, 5)...)
+		} else if sp.stored != nil && r.Chance(20) {
+			val = append([]byte("ok-best-new-"), c09Bytes(r, 4)...)
 		}
 		switch x := r.Intn(100); {
 		case x < 12:
@@ -739,7 +753,7 @@ func c09GenRequest(r *vfRand, sp *c09Spec, typ int32, keyLens []int) *pb.Message
 	if r.Chance(30) && typ != 2 {
 		m.ProviderPeers = c09StuffPeers(r, sp, 1+r.Intn(3))
 	}
-	if r.Chance(35) {
+	if r.Chance(35) || (typ == 0 && sp.stored != nil && r.Chance(60)) {
 		m.CloserPeers = c09StuffPeers(r, sp, 1+r.Intn(3))
 	}
 	if r.Chance(15) && typ != 0 {
@@ -860,6 +874,10 @@ func c09Run(t *testing.T, i int, seed uint64, sp *c09Spec, req *pb.Message, raw 
 		if rec := seen.Record; rec != nil {
 			// the validator's namespace and verdict; Put also reads the datastore (selection)
 			putOK = bytes.HasPrefix(seen.Key, []byte("/v/")) && !bytes.HasPrefix(rec.Value, []byte("bad")) && !sp.valueErr
+			if seen.Type == pb.Message_PUT_VALUE && sp.stored != nil && sp.values && bytes.Equal(sp.stored.Key, rec.Key) &&
+				bytes.HasPrefix(sp.stored.Value, []byte("ok-best")) && !bytes.HasPrefix(rec.Value, []byte("ok-best")) {
+				putOK = false // the stored record is at least as good: ErrOldRecord
+			}
 		}
 	}
 	nodeCoq := c09NodeCoq(d, sp, b, value, putOK)
@@ -1182,6 +1200,17 @@ func c09Plan(t *testing.T, seed uint64, n int, thorough bool) []c09Gen {
 			case 0:
 				req.Key = append([]byte("/v/c09-"), c09Bytes(r, 4)...)
 				req.Record = &recpb.Record{Key: req.Key, Value: append([]byte("ok-"), c09Bytes(r, 8)...)}
+				sp.stored = nil
+				if j%8 == 5 {
+					// the node holds a record the validator prefers: the put is refused, whatever else the request carries
+					req.Key = []byte("/v/c09-stored")
+					sp.stored = &recpb.Record{Key: req.Key, Value: []byte("ok-best-held")}
+					req.Record = &recpb.Record{Key: req.Key, Value: append([]byte("ok-"), c09Bytes(r, 8)...)}
+					req.CloserPeers = c09StuffPeers(r, sp, 1+r.Intn(3))
+					if r.Bool() {
+						req.ProviderPeers = c09StuffPeers(r, sp, 1+r.Intn(3))
+					}
+				}
 			case 3:
 				req.Key = c09Bytes(r, []int{1, 34, 80}[r.Intn(3)])
 			}
@@ -1205,7 +1234,7 @@ func c09Plan(t *testing.T, seed uint64, n int, thorough bool) []c09Gen {
 				by, _ := proto.Marshal(req)
 				return c09Run(t, i, seed, sp, nil, c09Frame(c09Mutate(r, by)), true, "raw-bytes")
 			}
-			tys := []int32{0, 1, 2, 2, 3, 3, 4, 4, 4, 5, 6}
+			tys := []int32{0, 0, 0, 1, 2, 2, 3, 3, 4, 4, 4, 5, 6}
 			req := c09GenRequest(r, sp, tys[r.Intn(len(tys))], c09KeyLens)
 			if stream && !c09Wire(req) {
 				stream = false
